@@ -87,7 +87,8 @@ Lemma num_stage2_shift d is0 tmp0 r2 p2 :
   let '(radix, tmp1, r3, p3) := num_stage2 is0 tmp0 r2 p2 in (radix, tmp1, r3, p3 + d).
 Proof.
   unfold num_stage2. destruct is0; [|reflexivity]. destruct r2 as [|c3 r2']; [reflexivity|].
-  destruct (byte_of c3 =? 98)%N; [reflexivity|]. destruct (byte_of c3 =? 120)%N; reflexivity.
+  destruct (byte_of c3 =? 98)%N; [reflexivity|]. destruct (byte_of c3 =? 120)%N; [reflexivity|].
+  destruct (byte_of c3 =? 111)%N; reflexivity.
 Qed.
 
 Lemma word_finish_shift d l np radix tmp1 r3 p3 : lpos l <= p3 ->
